@@ -64,7 +64,8 @@ def engine_quirk(ex, case, ref=None):
     msg = str(ex)
     if exc_name(ex) in ("InvalidOperationError", "ShapeError") and (
             "doesn't match the DataFrame height" in msg or "must have same length as DataFrame" in msg
-            or "output length of `map`" in msg or "produced different length" in msg):
+            or "output length of `map`" in msg or "produced different length" in msg
+            or "produces broadcasting column" in msg):
         if _scalar_shapes(case):
             return "polars_scalar_broadcast"
     if exc_name(ex) in ("InvalidOperationError", "PanicException", "SchemaError", "ComputeError") and (
